@@ -30,6 +30,12 @@ TEXT = {
             "summary = write on the expanded zero tree, summarize keeps the root. Tie to code: tree.py getter/setter/"
             "summarize_into run against the model on generated trees x gindices x expand.",
             "Coq proof by induction over paths + vm_compute correspondence with tree.py", "5 (C07)"),
+    "C08": ("Theorems: for every well-formed type and key, type navigation accepts the key iff the specification's "
+            "get_generalized_index step is defined, and then key_to_static_gindex is defined and equals the spec's index "
+            "(next_pow2(chunk_count)+i, x2 for lists, packed index arithmetic, __len__/__selector__ = 3) with the spec's "
+            "type; whole paths are step-wise the spec's and Path.gindex() concatenates those steps; to_gindex i d = 2^d+i. "
+            "Node addressing and dynamic indices tied by correspondence + model-free oracle.",
+            "Coq proof (case analysis on ty, N arithmetic/bit lemmas) + correspondence", "5 (C08)"),
     "C11": ("Theorems: the implementation model's is_fixed / min / max / type_byte_length equal the specification's for "
             "every type (induction on ty); every well-formed value's spec encoding length lies in [min_len, max_len] and "
             "equals fsize for fixed types (full nesting). value_byte_length tied by correspondence + model-free oracle.",
